@@ -39,12 +39,29 @@ func ruleInChSend(c *Ctx) {
 			c.undecided(spec.fn, "anchor", "-", "not found")
 			continue
 		}
-		for _, in := range instrsOf(fn) {
-			s, ok := in.(*ssa.Send)
-			if !ok {
-				continue
+		sendsInCh := func(g *ssa.Function) bool {
+			for _, in := range instrsOf(g) {
+				if s, ok := in.(*ssa.Send); ok {
+					if f, _ := fieldLoad(s.Chan); f == fInCh {
+						return true
+					}
+				}
 			}
-			if f, _ := fieldLoad(s.Chan); f != fInCh {
+			return false
+		}
+		for _, in := range instrsOf(fn) {
+			var s ssa.Instruction
+			if sx, ok := in.(*ssa.Send); ok {
+				if f, _ := fieldLoad(sx.Chan); f == fInCh {
+					s = sx
+				}
+			} else if call, ok := in.(*ssa.Call); ok {
+				// the wake-up extracted into a helper (schedule)
+				if h := call.Call.StaticCallee(); h != nil && h != fn && h.Pkg == fn.Pkg && h.Object() != nil && !h.Object().Exported() && sendsInCh(h) {
+					s = call
+				}
+			}
+			if s == nil {
 				continue
 			}
 			c.inst(1)
@@ -290,67 +307,82 @@ func ruleUnsubPrecond(c *Ctx) {
 			c.check(g != nil, fnName(fn), "direct count raised only below the per-resource limit of 256", p.InstrPos(st), "dominated by !(direct >= 256)", "limit test missing or weakened")
 		}
 	}
-	// rpc: the count handed to UnsubscribeResource is 1 or a decoded value that passed `count <= 0` -> error
+	// rpc: the count handed to UnsubscribeResource is 1 or a decoded value that passed `count <= 0` -> error,
+	// on every path (through the helpers the decoding may have been moved to)
 	if fn := p.Fn("rpc.HandleRequest"); fn != nil {
 		ur := p.Method("rpc.Requester.UnsubscribeResource")
-		for _, call := range callsIn(fn) {
-			if _, ok := isCallTo(call, ur); !ok {
-				continue
+		c.inst(1)
+		sp := &Spec{InlineHelpers: true}
+		sp.Classify = func(t *Tracer, fr *Frame, in ssa.Instruction) []Ev {
+			call, ok := isCallTo(in, ur)
+			if !ok {
+				return nil
 			}
-			c.inst(1)
 			cnt := callArgs(call.Common())[2]
-			ok := true
-			var check func(v ssa.Value, at *ssa.BasicBlock, depth int)
-			check = func(v ssa.Value, at *ssa.BasicBlock, depth int) {
-				if depth > 6 {
-					ok = false
-					return
+			if k, isC := t.foldInt(fr, cnt); isC {
+				if k >= 1 {
+					return []Ev{{Kind: "unsub", Note: "const"}}
 				}
-				if k, isC := constInt(v); isC {
-					if k != 1 {
-						ok = false
-					}
-					return
+				return []Ev{{Kind: "unsub", Note: fmt.Sprintf("const %d", k)}}
+			}
+			return []Ev{{Kind: "unsub", Note: t.valKey(fr, cnt, t.cur)}}
+		}
+		sp.Branch = func(t *Tracer, fr *Frame, i *ssa.If, dir bool) []Ev {
+			r := t.Resolve(fr, i.Cond)
+			v := r.V
+			for {
+				u, isU := v.(*ssa.UnOp)
+				if !isU || u.Op != token.NOT {
+					break
 				}
-				if ph, isP := v.(*ssa.Phi); isP {
-					for i, e := range ph.Edges {
-						check(e, ph.Block().Preds[i], depth+1)
-					}
-					return
+				rr := t.Resolve(r.Fr, u.X)
+				r, v, dir = rr, rr.V, !dir
+			}
+			x, op, k, isC := cmpConst(v)
+			if !isC {
+				return nil
+			}
+			positive := false
+			switch {
+			case op == token.GTR && k >= 0 && dir, op == token.LEQ && k >= 0 && !dir,
+				op == token.GEQ && k >= 1 && dir, op == token.LSS && k >= 1 && !dir:
+				positive = true
+			}
+			if !positive {
+				return nil
+			}
+			return []Ev{{Kind: "pos", Note: t.valKey(r.Fr, x, t.cur)}}
+		}
+		tr := runTrace(p, fn, sp)
+		bad := ""
+		n := 0
+		for _, path := range tr.Paths {
+			for i, e := range path {
+				if e.Kind != "unsub" {
+					continue
 				}
-				// a decoded value: positive on every path into `at`
-				pos := false
-				for _, b := range fn.Blocks {
-					i := blockIf(b)
-					if i == nil {
-						continue
-					}
-					x, op, k, isC := cmpConst(i.Cond)
-					if !isC || x != v || k != 0 {
-						continue
-					}
-					var succ *ssa.BasicBlock
-					switch op {
-					case token.LEQ:
-						succ = b.Succs[1]
-					case token.GTR:
-						succ = b.Succs[0]
-					}
-					if succ != nil && (succ == at || edgeDominates(b, succ, at)) {
-						pos = true
-					}
-					// the If block itself is the predecessor: the value flows in over its pass edge
-					if succ != nil && b == at {
-						pos = true
+				n++
+				if e.Note == "const" {
+					continue
+				}
+				okp := false
+				for _, e2 := range path[:i] {
+					if e2.Kind == "pos" && e2.Note == e.Note {
+						okp = true
 					}
 				}
-				if !pos {
-					ok = false
+				if !okp {
+					bad = "a zero or negative count reaches the connection (it would succeed and raise the direct count): " + tr.FmtPath(path) + " [count is " + e.Note + "]"
 				}
 			}
-			check(cnt, call.Block(), 0)
-			c.check(ok, fnName(fn), "unsubscribe count is 1 or a decoded value that passed the positivity test", p.InstrPos(call), "constant 1 or guarded by !(count <= 0)", "a zero or negative count reaches the connection (it would succeed and raise the direct count)")
 		}
+		if tr.Trunc {
+			bad = "path budget exhausted"
+		}
+		if n == 0 && bad == "" {
+			bad = "no path reaches UnsubscribeResource"
+		}
+		c.check(bad == "", fnName(fn), "unsubscribe count is 1 or a decoded value that passed the positivity test", p.Pos(fn.Pos()), fmt.Sprintf("%d paths reach UnsubscribeResource: constant 1 or guarded by !(count <= 0)", n), bad)
 	}
 }
 
@@ -564,7 +596,38 @@ func ruleFanoutSet(c *Ctx) {
 				seen[v] = true
 				switch x := v.(type) {
 				case *ssa.Parameter:
-					return x.Name() == "sub"
+					if x.Name() == "sub" {
+						return true
+					}
+					// parameter of an extracted helper: every caller passes a value from the set
+					pf := x.Parent()
+					if pf.Object() == nil || pf.Object().Exported() || pf.Parent() != nil {
+						return false
+					}
+					idx := -1
+					for i, pp := range pf.Params {
+						if pp == x {
+							idx = i
+						}
+					}
+					n := 0
+					if node := p.CG.Nodes[pf]; node != nil && idx >= 0 {
+						for _, e := range node.In {
+							if e.Site == nil || e.Site.Common().StaticCallee() != pf {
+								continue
+							}
+							args := e.Site.Common().Args
+							if idx >= len(args) {
+								return false
+							}
+							n++
+							delete(seen, args[idx])
+							if !walk(args[idx], d+1) {
+								return false
+							}
+						}
+					}
+					return n > 0
 				case *ssa.Extract:
 					if nx, ok := x.Tuple.(*ssa.Next); ok {
 						if rg, ok := nx.Iter.(*ssa.Range); ok {
